@@ -2,7 +2,6 @@ package fakedb
 
 import (
 	"sort"
-	"strconv"
 	"strings"
 	"time"
 
@@ -563,15 +562,7 @@ func (c *conn) doShow(x *ast.ShowStmt) (*result, error) {
 	s := c.srv
 	switch x.Tp {
 	case ast.ShowVariables:
-<<<<<<< HEAD
 		vars := map[string]string{"auto_increment_increment": itoa(int(s.autoStep())), "auto_increment_offset": "1", "autocommit": "ON",
-=======
-		step := "1"
-		if s.autoStep > 1 {
-			step = strconv.FormatInt(s.autoStep, 10)
-		}
-		vars := map[string]string{"auto_increment_increment": step, "auto_increment_offset": "1", "autocommit": "ON",
->>>>>>> atroll
 			"version": s.version, "tx_isolation": "READ-COMMITTED", "transaction_isolation": "READ-COMMITTED", "lower_case_table_names": "1",
 			"max_allowed_packet": "4194304", "sql_mode": "STRICT_TRANS_TABLES"}
 		names := make([]string, 0, len(vars))
@@ -715,13 +706,8 @@ func (c *conn) doInsert(x *ast.InsertStmt, args []Value) (*result, error) {
 					continue
 				}
 				if vals[i].IsNull() || (vals[i].K == KInt && vals[i].I == 0) {
-<<<<<<< HEAD
-					t.autoInc = s.nextAuto(t.autoInc)
-					vals[i] = IntV(t.autoInc)
-=======
 					gen := c.srv.nextAuto(t.autoInc)
 					vals[i] = IntV(gen)
->>>>>>> atroll
 					if res.lastID == 0 {
 						res.lastID = gen
 					}
